@@ -129,6 +129,8 @@ class Translator:
             return f"(Expr.lit (Val.bool {'true' if e.this else 'false'}))", "bool"
         if isinstance(e, exp.Literal):
             txt = e.this
+            if not e.is_string and re.fullmatch(r"\d+\.\d+e0", txt):
+                txt = txt[:-2]  # float_to_sql_literal: a double literal; the model's numbers are exact, so it denotes the same value
             if txt in self.params:
                 v, t = self.params[txt]
                 if v not in self.used_params:
